@@ -407,14 +407,17 @@ impl Property for C15 {
         let mut o = Outcome::default();
         let mut obs = Vec::new();
         let mut digest = refcodec::util::Fnv::default();
+        let mut any_threads = false;
         for s in &case.scenarios {
             let r = exec.run(s)?;
-            digest.update_u64(observable_digest(&r));
+            let d = observable_digest(&r);
+            any_threads |= d == 0;
+            digest.update_u64(d);
             trace_facts(&r, &mut o);
             o.runs += 1;
             obs.push(observe(s, &r));
         }
-        o.digest = digest.0;
+        o.digest = if any_threads { 0 } else { digest.0 };
         o.violations = compare(case, &obs);
         let meta: Meta15 = serde_json::from_value(case.scenarios[0].meta.clone()).unwrap_or_default();
         *o.stats.entry(format!("template: {}", meta.template)).or_default() += 1;
